@@ -1,0 +1,6 @@
+//go:build !verif
+
+package plenccore
+
+// VerifYield is a no-op unless plenc is built with the "verif" build tag.
+func VerifYield(site string) {}
